@@ -662,4 +662,33 @@ void register_all()
     }
 }
 }   // namespace
+#ifndef VF_FUZZ_TARGET
 VF_MAIN(register_all)
+#else
+// Engine E5 on histories: libFuzzer decodes bytes into an operation sequence (8 bytes per operation) and runs it
+// through the same interpreter and oracles; coverage guidance explores operation combinations the random
+// generator reaches rarely. Built with clang (-DVF_NO_LINEAR: no slot type uses linear.hpp).
+extern "C" int LLVMFuzzerTestOneInput(const uint8_t * data, size_t size)
+{
+    Case c;
+    c.slots = 4;
+    for (size_t i = 0; i + 8 <= size && c.ops.size() < 80; i += 8) {
+        Op o;
+        o.kind = data[i] % NKINDS;
+        o.a = data[i + 1] & 3;
+        o.b = (data[i + 1] >> 2) & 3;
+        o.t = data[i + 2] % NTYPES;
+        o.e = {unsigned(data[i + 3] & 15), unsigned(data[i + 3] >> 4), unsigned(data[i + 4] & 15)};
+        o.c = {unsigned(data[i + 4] >> 4), unsigned(data[i + 5] & 15), unsigned(data[i + 5] >> 4)};
+        o.v = int(int8_t(data[i + 6])) / 3;
+        c.ops.push_back(o);
+    }
+    Verdict v = run(c);
+    if (v) {
+        fprintf(stderr, "FUZZ-ORACLE-VIOLATION: %s\nhistory: %s\n", v->c_str(), c.to_json().dump().c_str());
+        fflush(nullptr);
+        __builtin_trap();
+    }
+    return 0;
+}
+#endif
